@@ -385,6 +385,21 @@ def run(index, rep, tier):
             rep.check(v == "False", "R07.10", mp_.qualname, "re-seeding with the basal collapse left on", fn_where(mp_, c), "reroot_at_midpoint re-seeds with collapse_unrooted_basal_bifurcation=False",
                       "Tree.reroot_at_midpoint re-seeds with collapse_unrooted_basal_bifurcation=%s: the tree is about to be declared rooted, and when the midpoint is the degree-two root of an (until then) unrooted tree the collapse removes exactly the node the root has to sit on - the result is rooted one edge away from the midpoint" % v)
 
+    # ---- R07.11 the traversals the re-rooting operations run on do not recurse on depth
+    with rep.section("R07.11"):
+        rep.rule("R07.11", "the traversals the re-rooting operations run on do not recurse on depth: Node.preorder_iter, postorder_iter, levelorder_iter and leaf_iter (what suppress_unifurcations, encode_bipartitions, ladderize and reorder walk the tree with) contain no call of the same method on another node - one generator frame per level makes every re-seeding of a tree a few thousand levels deep end in RecursionError, and the property quantifies over all tree shapes")
+        nk = index.klass(NODE)
+        n11 = 0
+        for name in ("preorder_iter", "postorder_iter", "levelorder_iter", "leaf_iter"):
+            f = nk.methods.get(name)
+            if f is None:
+                raise AnalysisError("R07.11: Node.%s vanished" % name)
+            n11 += 1
+            rec = [c for c in calls_in(f.node, nested=True) if call_name(c) == name and isinstance(c.func, ast.Attribute)]
+            rep.check(not rec, "R07.11", f.qualname, "%s calls itself on another node" % name, fn_where(f, rec[0] if rec else None), "Node.%s walks with an explicit stack / queue" % name,
+                      "Node.%s calls `%s`: the traversal nests one generator per level of the tree, so on a caterpillar a few thousand leaves long every operation that walks the tree - suppress_unifurcations inside reseed_at / reroot_at_node / to_outgroup_position, ladderize, encode_bipartitions - fails with RecursionError where the explicit-stack version handles 20000 levels" % (name, norm(rec[0])[:50] if rec else ""))
+        rep.floor("R07.11", "basic traversals of Node", 4, n11)
+
 
 def pm_target(fi, call):
     pm = parent_map(fi.node)
